@@ -272,8 +272,12 @@ def run(ctx):
             raised("%s/%s!" % (t, how), "%s %s" % (how, t), e, events)
     # projects, patterns, links, notes
     for i in range(6 if q else 60):
-        pa = gen.rand_project(rnd, spec, depth=1, small=True, nmods=rnd.randrange(2, 5))
-        data = pa.read()
+        try:        # (building an object with in-range values works in isolation: a failure here comes from what ran before)
+            pa = gen.rand_project(rnd, spec, depth=1, small=True, nmods=rnd.randrange(2, 5))
+            data = pa.read()
+        except Exception as e:
+            raised("project%d!build" % i, "building an independent project", e, [])
+            continue
         for how in ("construct", "clone", "load"):
             pb = gen.rand_project(rnd, spec, depth=0, small=True) if how == "construct" else (pa.clone() if how == "clone" else api.read_sunvox_file(io.BytesIO(data)))
             events = [heap_event("project %s" % how, [("A", pa), ("B", pb)])]
@@ -433,6 +437,30 @@ def run(ctx):
         events.append(heap_event("after further loads of " + name, [("A", a), ("B", b), ("C", c3), ("D", a2)]))
         ctx.count_case(("fixture-twice", name))
         traces.append({"id": "fixture/" + name, "events": events})
+    # loads that FAIL (unknown type, truncated file, missing file) leave independent objects as they were - also in what they
+    # accept: an out-of-range assignment refused before is refused afterwards
+    from rv.errors import ControllerValueError
+    amp = api.m.Amplifier()
+    events = []
+    for k, bad in enumerate([b"SVOX\0\0\0\0SFFF\4\0\0\0\1\0\0\0STYP\3\0\0\0Zz\0", fmt.fixtures()[0][1][:40], "/nonexistent/c17.sunvox",
+                             b"SSYN\0\0\0\0CVAL\2\0\0\0\1\0"]):
+        sb, bb, pj0 = digest(amp, spec)
+        try:
+            api.read_sunvox_file(io.BytesIO(bad) if isinstance(bad, bytes) else bad)
+        except Exception:
+            pass
+        for name, v in (("volume", 5000), ("balance", -129), ("volume", -1)):
+            try:
+                setattr(amp, name, v)
+            except ControllerValueError:
+                pass
+            except Exception:
+                pass
+        sa, ba, pj1 = digest(amp, spec)
+        events.append({"op": "mutate", "kind": "failed-load-then-refused-assignments", "provenance": "failed load %d" % k, "state_before": sb,
+                       "state_after": sa, "bytes_before": bb, "bytes_after": ba, "diff": first_diff(pj0, pj1)})
+        ctx.count_case(("failed-load", k))
+    traces.append({"id": "failed-loads", "events": events})
     # read-only API surface must not change the object it is called on (nor class-level state)
     def pure(tid, o, calls):
         events = []
@@ -449,7 +477,11 @@ def run(ctx):
         events.append(heap_event("read-only calls on " + tid, [("A", o)]))
         traces.append({"id": "pure/" + tid, "events": events})
     for t in types_:
-        mod = gen.rand_module(rnd, cl[t], spec, depth=1, in_project=False)
+        try:
+            mod = gen.rand_module(rnd, cl[t], spec, depth=1, in_project=False)
+        except Exception as e:
+            raised("pure/%s!build" % t, "building an independent module", e, [])
+            continue
         calls = [("repr", lambda: repr(mod)), ("clone", lambda: mod.clone()), ("Synth.read", lambda: api.Synth(mod).read()),
                  ("get_raw", lambda: [mod.get_raw(n) for n in type(mod).controllers if type(mod).controllers[n].attached(mod)]),
                  ("pattern_value", lambda: [c.pattern_value(mod, getattr(mod, n)) for n, c in type(mod).controllers.items()
@@ -457,7 +489,11 @@ def run(ctx):
                  ("int(visualization)", lambda: int(mod.visualization)), ("dir", lambda: dir(mod))]
         pure(t, mod, calls)
     for i in range(3 if q else 30):
-        pj = gen.rand_project(rnd, spec, depth=1, small=True, nmods=rnd.randrange(2, 5))
+        try:
+            pj = gen.rand_project(rnd, spec, depth=1, small=True, nmods=rnd.randrange(2, 5))
+        except Exception as e:
+            raised("pure/project%d!build" % i, "building an independent project", e, [])
+            continue
         pats = [x for x in pj.patterns if isinstance(x, api.Pattern)]
         calls = [("read", lambda: pj.read()), ("clone", lambda: pj.clone()),
                  ("pattern_lines", lambda: list(pj.pattern_lines(0, 8)) if pats and all(x is not None for x in pj.patterns) else None),
